@@ -13,6 +13,9 @@ Open Scope nat_scope.
 
 Definition pure_eq {T : Type} (P : T -> bool) : T -> res bool := fun e => Ok (P e).
 
+Lemma pure_eq_unfold {T : Type} (P : T -> bool) : pure_eq P = fun e => Ok (P e).
+Proof. reflexivity. Qed.
+
 (* ---------------------------------------------------------------------------------------- *)
 (* arithmetic of windows                                                                      *)
 (* ---------------------------------------------------------------------------------------- *)
@@ -415,7 +418,8 @@ Section Find.
       rewrite (ctrl_at_ok B T t HS _ Hlt') in Hfix. cbn [bind] in Hfix.
       rewrite <- (view_big B T t pos g HS HM Hpos Hbig Hg bit Hlt) in Hfix.
       rewrite is_special_negb_full in Hsp. destruct (is_full (nth bit g 0%Z)); [discriminate Hsp|].
-      injection Hfix as <-. rewrite mod_window by lia. exact Hlt.
+      assert (Es : s = (pos + bit) mod nb T t) by congruence. rewrite Es.
+      rewrite mod_window by lia. exact Hlt.
     Qed.
 
     Lemma in_group_none_full pos g : pos < nb T t -> load B T t pos = Ok g ->
@@ -442,12 +446,12 @@ Section Find.
       load B T t pos = Ok g -> (forall j, j < GW -> is_full (nth j g 0%Z) = true) ->
       load B T t' pos = Ok g' -> g_any_empty B g' = false.
     Proof.
-      intros Hpos Hbig Hg Hall Hg'. destruct Hsame as (_ & HS' & HM' & Hfull & Hother).
+      intros Hpos Hbig Hg Hall Hg'. pose proof Hsame as (_ & HS' & HM' & Hfull & Hother).
       apply (group_no_empty_big t' HS' HM' pos g'); [lia|lia|exact Hg'|].
       intros j Hj. rewrite Hnb.
       assert (Hk : (pos + j) mod nb T t < nb T t) by (apply Nat.mod_upper_bound; lia).
-      destruct (Nat.eq_dec ((pos + j) mod nb T t) s) as [->|Hne].
-      - apply full_not_empty. exact Hfull.
+      destruct (Nat.eq_dec ((pos + j) mod nb T t) s) as [Es|Hne].
+      - rewrite Es. apply full_not_empty. exact Hfull.
       - rewrite (Hother _ Hk Hne). rewrite <- (view_big B T t pos g HS HM Hpos Hbig Hg j Hj).
         apply full_not_empty. apply Hall. exact Hj.
     Qed.
